@@ -12,6 +12,7 @@ from __future__ import annotations
 
 import functools
 import itertools
+import json
 import re
 import shutil
 from pathlib import Path
@@ -357,13 +358,96 @@ def xml_eval(case):
     return sorted(set(out)), True
 
 
+# ---- plugin codemod end to end with line-only findings (DefectDojo): several findings on one line, through the result-set loader
+DD_TITLE = "acme.insecure-link"
+
+
+def dd_plugin_eval(case):
+    """case = ("dd-plugin", pipeline, ((line, id), ...)): findings reach the pipeline through DefectDojoResultSet.from_json."""
+    import functools
+    import shutil
+
+    drive.init_inproc()
+    drive.reset_caches()
+    from codemodder.codemods.api import Metadata, RemediationCodemod, ReviewGuidance
+    from codemodder.codemods.regex_transformer import SastRegexTransformerPipeline
+    from codemodder.codemods.xml_transformer import ElementAttributeXMLTransformer, XMLTransformerPipeline
+    from codemodder.context import CodemodExecutionContext
+    from codemodder.project_analysis.python_repo_manager import PythonRepoManager
+    from codemodder import providers, registry
+    from core_codemods.defectdojo.api import DefectDojoDetector
+
+    _, pipeline, findings = case
+    root = core.scratch_root() / "c19-dd"
+    shutil.rmtree(root, ignore_errors=True)
+    proj = root / "proj"
+    if pipeline == "regex":
+        name, text = "page.html", "".join(f'<a href="http://e.org/{n}">x</a>\n' for n in range(1, 7))
+        transformer = SastRegexTransformerPipeline(pattern=r"http://", replacement="https://", change_description="Use https")
+        ext = [".html"]
+    else:
+        name, text = "web.xml", "<cfg>\n" + "".join(f'<item a="1" n="{n}"/>\n' for n in range(2, 7)) + "</cfg>\n"
+        transformer = XMLTransformerPipeline(functools.partial(ElementAttributeXMLTransformer, name_attributes_map={"item": {"a": "9"}}, line_only_matching=True))
+        ext = [".xml"]
+    drive.write_tree(proj, {name: text.encode()})
+    doc = {"results": [{"id": fid, "title": DD_TITLE, "file_path": name, "line": line} for line, fid in findings]}
+    (root / "dd.json").write_text(json.dumps(doc))
+
+    class Plugin(RemediationCodemod):
+        @property
+        def origin(self):
+            return "acme"
+
+        @property
+        def docs_module_path(self):
+            return "acme.docs"
+
+    codemod = Plugin(metadata=Metadata(name="dd-" + pipeline, summary="s", review_guidance=ReviewGuidance.MERGE_WITHOUT_REVIEW, description="d"),
+                     detector=DefectDojoDetector(), transformer=transformer, default_extensions=ext, requested_rules=[DD_TITLE])
+    rm = PythonRepoManager(proj)
+    ctx = CodemodExecutionContext(proj, False, False, registry.load_registered_codemods(), providers.load_providers(), rm, ["*.html", "*.xml"], [], {"defectdojo": [str(root / "dd.json")]}, 1)
+    codemod.apply(ctx)
+    changes = [c for cs in ctx.get_changesets(codemod.id) for c in cs.changes]
+    unfixed = [u.id for u in ctx.get_unfixed_findings(codemod.id)]
+    carried = {}
+    for c in changes:
+        carried.setdefault(c.lineNumber, set()).update(str(f.id) for f in c.findings or [])
+    want = {}
+    for line, fid in findings:
+        want.setdefault(line, set()).add(str(fid))
+    out = []
+    tag = f"dd-plugin|{pipeline}"
+    after = (proj / name).read_text().split("\n")
+    before = text.split("\n")
+    edited = {i + 1 for i, (a, b) in enumerate(zip(before, after)) if a != b} if len(before) == len(after) else None
+    if pipeline == "regex" and edited != set(want):
+        out.append((f"{tag}|edited-lines-differ", f"lines with a finding {sorted(want)}, lines edited {sorted(edited) if edited is not None else 'line count changed'}"))
+    for line, ids in sorted(want.items()):
+        if carried.get(line, set()) != ids:
+            missing = sorted(ids - carried.get(line, set()) - set(map(str, unfixed)))
+            if missing:
+                out.append((f"{tag}|finding-neither-carried-nor-unfixed", f"line {line}: findings {sorted(ids)} reported, the change carries {sorted(carried.get(line, set()))}, unfixed {unfixed}"))
+    shutil.rmtree(root, ignore_errors=True)
+    return out, bool(changes)
+
+
+def dd_cases():
+    out = []
+    for pipeline in ("regex", "xml"):
+        for findings in (((2, 101),), ((2, 101), (4, 102)), ((4, 102), (4, 103)), ((2, 101), (4, 102), (4, 103), (6, 104)), ((4, 102), (4, 103), (4, 105))):
+            out.append(("dd-plugin", pipeline, findings))
+    return out
+
+
 def eval_case(case):
+    if case[0] == "dd-plugin":
+        return dd_plugin_eval(case)
     return regex_eval(case) if case[0] == "regex" else xml_eval(case)
 
 
 def explore(tier, seed):
     sf = (xmlinfo.selftest(), udiff.selftest())
-    cases = regex_cases(tier) + xml_cases(tier)
+    cases = regex_cases(tier) + xml_cases(tier) + dd_cases()
     res = drive.pmap("cmverif.checks.c19:eval_case", drive.seed_rotate(cases, seed), chunksize=32)
     cands = {}
     nontrivial = 0
@@ -405,6 +489,8 @@ def explore(tier, seed):
                     continue
             violations.append(Violation(PROP, sig, f"{len(r['outcomes'])} distinct outcomes over {r['executions']} schedules of a plugin codemod on 3 files with 3 workers; e.g. schedule {alt[:30]}", {"schedule": drv, "choices": alt, "reference": r["root"]["hash"], "sig": sig}, 1))
     n_regex = sum(1 for c in cases if c[0] == "regex")
+    n_dd = sum(1 for c in cases if c[0] == "dd-plugin")
+    cases = [c for c in cases if c[0] != "dd-plugin"]
     coverage = {
         "states": len(cases),
         "transitions": 2 * len(cases),
@@ -414,6 +500,7 @@ def explore(tier, seed):
                     {"xml": xml_doc(cases[n_regex + 30][1], cases[n_regex + 30][2]), "transformer": cases[n_regex + 30][3], "targeted_start_tags": cases[n_regex + 30][4]}],
         "regex_cases": n_regex,
         "xml_cases": len(cases) - n_regex,
+        "plugin_runs_with_line_only_findings": n_dd,
         "cases_with_an_edit": nontrivial,
         "regex_alphabet": {"lines": LINE_KINDS, "eols": list(EOLS), "patterns": list(PATTERNS), "max_lines": 3 if tier == "quick" else 4},
         "xml_alphabet": {"children": CHILD, "prologs": list(PROLOG), "transformers": TRANSFORMS, "max_children": 2 if tier == "quick" else 3},
